@@ -273,6 +273,8 @@ func (c *Client) AddHeader(key, val string) *Client {
 
 // SetHeader sets a single header field and its value in the client.
 func (c *Client) SetHeader(key, val string) *Client {
+	// Set alone replaces the first of several values added for the key
+	c.header.Del(key)
 	c.header.Set(key, val)
 	return c
 }
@@ -311,6 +313,7 @@ func (c *Client) AddParam(key, val string) *Client {
 
 // SetParam sets a single query parameter and its value in the client.
 func (c *Client) SetParam(key, val string) *Client {
+	c.params.Del(key)
 	c.params.Set(key, val)
 	return c
 }
